@@ -447,8 +447,8 @@ def step_float_concrete(R):
             ins = h.add(ir.BinaryInstruction(ir.OpCode[opname], T("f"), v0, v1))
             h.start([0], {v0: a, v1: b}, ins)
             h.step()
-            if h.post["localScope"][ins.Reference] != f(a, b):
-                bad = (a, b, h.post["localScope"][ins.Reference], f(a, b))
+            if h.post["localScope"].get(ins.Reference) != f(a, b):
+                bad = (a, b, h.post["localScope"].get(ins.Reference), f(a, b))
                 break
         R.bounded(f"VM.float.{opname}", EXEC, bad is None, len(samples), detail="" if not bad else f"{opname}({bad[0]!r}, {bad[1]!r}) = {bad[2]!r}, IEEE result {bad[3]!r}")
     for opname, f in (("VECTOR_MUL_SCALAR", operator.mul), ("VECTOR_DIV_SCALAR", operator.truediv)):
@@ -461,8 +461,8 @@ def step_float_concrete(R):
             h.start([0], {v0: vecv, v1: b}, ins)
             h.step()
             want = [f(x, b) for x in vecv]
-            if h.post["localScope"][ins.Reference] != want:
-                bad = (vecv, b, h.post["localScope"][ins.Reference], want)
+            if h.post["localScope"].get(ins.Reference) != want:
+                bad = (vecv, b, h.post["localScope"].get(ins.Reference), want)
                 break
         R.bounded(f"VM.float.{opname}", EXEC, bad is None, len(samples), detail="" if not bad else f"{opname}({bad[0]!r}, {bad[1]!r}) = {bad[2]!r}, component-wise IEEE result {bad[3]!r}",
                   replay=None if not bad else script("""
@@ -488,8 +488,8 @@ def step_float_concrete(R):
             h.start([0], {v0: x, v1: y}, ins)
             h.step()
             want = [f(p, q) for p, q in zip(x, y)]
-            if h.post["localScope"][ins.Reference] != want:
-                bad = (x, y, h.post["localScope"][ins.Reference], want)
+            if h.post["localScope"].get(ins.Reference) != want:
+                bad = (x, y, h.post["localScope"].get(ins.Reference), want)
                 break
         R.bounded(f"VM.float.{opname}", EXEC, bad is None, 120, detail="" if not bad else f"{opname}({bad[0]!r}, {bad[1]!r}) = {bad[2]!r}, expected {bad[3]!r}")
 
@@ -1220,8 +1220,16 @@ def step_vector(R):
                     eqnew = veq(got[j], nv) if isinstance(nv, list) else teq(got[j], nv)
                     eqold = veq(got[j], a[j]) if isinstance(a[j], list) else teq(got[j], a[j])
                     conj.append(z3.If(i.t == j, eqnew, eqold))
-            return [("value", z3.And(z3.BoolVal(ok_shape), *conj)), ("copy", z3.BoolVal(got is not a)),
-                    ("old-value-intact", z3.BoolVal(len(a) == n and all(x is y for x, y in zip(a, old))))] + frame_goals(h, writes_local=[ins.Reference])
+            goals = [("value", z3.And(z3.BoolVal(ok_shape), *conj))]
+            if producer in ("decl", "load"):
+                # the operand register holds the very object of a VARIABLE (NEW_VARIABLE and LOAD bind the variable's object): the write must
+                # go to a copy, the variable keeps its value until the result is stored back
+                goals += [("copy", z3.BoolVal(got is not a)), ("old-value-intact", z3.BoolVal(len(a) == n and all(x is y for x, y in zip(a, old))))]
+                return goals + frame_goals(h, writes_local=[ins.Reference])
+            # any other producer (constructor, shuffle, call, arithmetic, cast, another element write) yields a temporary that no variable
+            # holds -- stores copy (VM.step.STORE.no-sharing-with-the-source) -- so reusing it for the result is unobservable; only the
+            # variables, arguments and globals must stay as they are
+            return goals + frame_goals(h, writes_local=[ins.Reference], mutates=[a])
 
         for producer in PRODUCERS:
             verify(R, f"VM.step.{what}_SET", EXEC, functools.partial(run_set, producer=producer), label=str(n) if producer == "decl" else f"{n},operands-from-{producer}")
